@@ -29,7 +29,7 @@ Theorem C25_frontends_canonical : forall i r,
 Proof. exact frontends_canonical. Qed.
 Print Assumptions C25_frontends_canonical.
 
-(* After the repairs (/repo 5ba9a71^..d4ea2c7: Request.write validates method, request-target, Host and
+(* After the repairs (/repo c496926, 505d2ce, 4b75bc7, d4ea2c7: Request.write validates method, request-target, Host and
    field names before writing anything) a request that is not safe is never written: the model of
    Request.Write returns the error code and no bytes. *)
 Theorem C25_unsafe_refused : forall i r,
